@@ -93,6 +93,33 @@ func checkC01(r *run, m *PacketModel) (CaseInfo, error) {
 		}
 	}
 
+	// a receiver that was edited between two decodes (a forwarder strips an extension, then the next packet
+	// arrives in the same Packet): the second decode must give back every field again
+	{
+		var eq rtp.Packet
+		if err := eq.Unmarshal(clone(buf)); err != nil {
+			return ci, failf("Unmarshal rejects the packet's own Marshal output: %v", err)
+		}
+		if ids := eq.GetExtensionIDs(); len(ids) >= 2 && (m.ExtKind == "onebyte" || m.ExtKind == "twobyte") {
+			if err := eq.DelExtension(ids[int(m.Seq)%(len(ids)-1)]); err != nil { // any element but the last
+				return ci, failf("DelExtension(%d) on a decoded packet: %v", ids[0], err)
+			}
+			ci.class("decode-after-delextension")
+		} else {
+			eq.Marker, eq.CSRC = !eq.Marker, append(eq.CSRC, 7)
+		}
+		in := clone(buf)
+		if err := eq.Unmarshal(in); err != nil {
+			return ci, failf("Unmarshal into a Packet that was edited after an earlier decode rejects the packet's own Marshal output: %v", err)
+		}
+		if !bytes.Equal(in, buf) {
+			return ci, failf("Unmarshal into an edited Packet modified its input")
+		}
+		if err := m.comparePacket(&eq, "Unmarshal(Marshal(p)) into a Packet edited (DelExtension / fields) after an earlier decode"); err != nil {
+			return ci, err
+		}
+	}
+
 	// Header alone.
 	hsz := p.Header.MarshalSize()
 	if hsz != m.headerSize() {
@@ -170,7 +197,7 @@ func compareWire(m *PacketModel, w *rtpwire.Packet, canonical bool) error {
 	return nil
 }
 
-const ruleC01 = "rapid draws well-formed Packet models (version 0-3, marker, PT 0-127, sequence/timestamp/SSRC biased to 0, 1 and the maxima, 0-15 CSRCs, no/one-byte/two-byte/legacy extension built with SetExtension incl. empty two-byte values, 16-byte one-byte values, ids 1-14 / 1-255, a two-byte block filled to 64 KiB in one case of 150 and legacy values of up to 65535 words, payload 0-1500 B or (one case in 200) 64-70 KiB, nil or empty payload, padding 0 or 1-255); oracle: MarshalSize = RFC size of the model, Marshal, a second Marshal after the caller overwrote the first result, the independent RFC 3550/8285 parser reads the model back from the encoder output, Unmarshal into a fresh Packet and into a Packet that decoded another packet before (also from one shared receive buffer) gives back every field, Header.Marshal/Unmarshal likewise; non-trivial = has extension, CSRC, padding or an empty payload; distinct = FNV-64 of the JSON case"
+const ruleC01 = "rapid draws well-formed Packet models (version 0-3, marker, PT 0-127, sequence/timestamp/SSRC biased to 0, 1 and the maxima, 0-15 CSRCs, no/one-byte/two-byte/legacy extension built with SetExtension incl. empty two-byte values, 16-byte one-byte values, ids 1-14 / 1-255, a two-byte block filled to 64 KiB in one case of 150 and legacy values of up to 65535 words, payload 0-1500 B or (one case in 200) 64-70 KiB, nil or empty payload, padding 0 or 1-255); oracle: MarshalSize = RFC size of the model, Marshal, a second Marshal after the caller overwrote the first result, the independent RFC 3550/8285 parser reads the model back from the encoder output, Unmarshal into a fresh Packet and into a Packet that decoded another packet before (also from one shared receive buffer, and into a Packet edited with DelExtension after an earlier decode) gives back every field, Header.Marshal/Unmarshal likewise; non-trivial = has extension, CSRC, padding or an empty payload; distinct = FNV-64 of the JSON case"
 
 func TestC01(t *testing.T) {
 	r := begin(t, "C01", "exploration", ruleC01)
